@@ -427,8 +427,20 @@ pub fn main_xor(args: &[String]) {
     let n: usize = args[2].parse().unwrap();
     let mut rng = StdRng::seed_from_u64(seed);
     for i in 0..n {
-        let a = crate::gen::rand_addr(&mut rng);
         let tw: u128 = match i % 4 { 0 => 0, 1 => (1u128 << 96) - 1, _ => rng.gen::<u128>() >> 32 };
+        let key: u128 = (0x2112_a442u128 << 96) | tw;
+        let port: u16 = match i % 7 { 0 => 0, 1 => 0x2112, 2 => 0xffff, _ => rng.gen() };
+        let v4: u32 = rng.gen();
+        // boundary patterns of the address itself and of its XORed (wire) form
+        let a: std::net::SocketAddr = match i % 11 {
+            0 => std::net::SocketAddr::from((std::net::Ipv6Addr::from(0xffff_0000_0000u128 | v4 as u128), port)),            // ::ffff:a.b.c.d
+            1 => std::net::SocketAddr::from((std::net::Ipv6Addr::from(v4 as u128), port)),                                   // ::a.b.c.d
+            2 => std::net::SocketAddr::from((std::net::Ipv6Addr::from(key ^ (0xffff_0000_0000u128 | v4 as u128)), port)),    // wire form reads ::ffff:a.b.c.d
+            3 => std::net::SocketAddr::from((std::net::Ipv6Addr::from(key), port)),                                          // wire form all zero
+            4 => std::net::SocketAddr::from((std::net::Ipv6Addr::from(!key), port)),                                         // wire form all ones
+            5 => std::net::SocketAddr::from((std::net::Ipv4Addr::from(0x2112_a442u32), port)),                               // wire form 0.0.0.0
+            _ => { let mut x = crate::gen::rand_addr(&mut rng); x.set_port(port); x }
+        };
         let ow: u128 = match i % 3 { 0 => tw ^ 1, 1 => tw ^ (1u128 << 95), _ => rng.gen::<u128>() >> 32 };
         let (tid, other) = (TransactionId::from(tw), TransactionId::from(ow));
         let x = XorMappedAddress::new(a, tid);
@@ -437,7 +449,8 @@ pub fn main_xor(args: &[String]) {
         let mut wbuf = vec![0u8; x.padded_len()];
         let wn = x.write_into(&mut wbuf).unwrap_or(0);
         let back = XorMappedAddress::from_raw(&raw).map(|y| (y.addr(tid), y.addr(other)));
-        let (b1, b2) = match back { Ok((p, q)) => (addr_json(p), addr_json(q)), Err(_) => (json!(null), json!(null)) };
+        let none = json!({"fam": 0, "ip": [], "port": 0});
+        let (b1, b2) = match back { Ok((p, q)) => (addr_json(p), addr_json(q)), Err(_) => (none.clone(), none) };
         let aj = addr_json(a);
         writeln!(out, "{}", json!({"fam": aj["fam"], "ip": aj["ip"], "port": aj["port"], "tid": tw.to_be_bytes()[4..].to_vec(),
             "other_tid": ow.to_be_bytes()[4..].to_vec(), "wire": wire, "back": b1, "back_other": b2,
